@@ -1237,8 +1237,11 @@ def run(ctx, out, first=None):
                 out.stat("regression-replays-pass")
             else:
                 out.stat("regression-replays-FAIL")
-                out.violations.append({"case": c, "signature": signature(r.get("callback", "none"), c["api"], r.get("lock", r["outcome"])).replace("F-C18-", "F-C18-regression-", 1),
-                                       "what": f"regression replay (fixed finding F-C18a/b/c) fails again: {r['outcome']} {r.get('lock')} in {r.get('method')}",
+                sg = (f"F-C18-regression-notwritten-{r.get('callback', 'none')}-{API_MODEL_NAME.get(c['api'], c['api'])}"
+                      if r["outcome"] == "ok" else
+                      signature(r.get("callback", "none"), c["api"], r.get("lock", r["outcome"])).replace("F-C18-", "F-C18-regression-", 1))
+                out.violations.append({"case": c, "signature": sg,
+                                       "what": f"regression replay (fixed finding F-C18a/b/c/d) fails again: outcome {r['outcome']}, lock {r.get('lock')} in {r.get('method')}, written {r.get('written')}",
                                        "stack": r.get("stack")})
     wakeup_pipe_oracle(out, PROTOS if full else [4])
     out.stat("run_s", round(time.time() - t0, 1))
@@ -1306,6 +1309,16 @@ def regression_cases():
     for scn in ("msg_q2", "topic_q2"):
         for loop in ("rwm", "thread"):
             cases.append({"scenario": scn, "api": "reconnect", "loop": loop, "sockcfg": "all", "proto": 5})
+    # F-C18d (fixed 862aa7b, ba6c857): reconnect() inside on_disconnect after a completed disconnect() (d1) / after a write
+    # error deep inside a handler (d2) - the CONNECT of the new connection must now be written
+    p = os.path.join(here, "corpus", "C18", "notwritten_disc_done.json")
+    if os.path.exists(p):
+        import json
+        cases += json.load(open(p)).get("cases", [])
+    for scn in ("disc_done", "disc_in_puback", "fail_pubrec", "fail_pubrel", "fail_connack_resend"):
+        for loop in ("rwm", "loop"):
+            for proto in (4, 5):
+                cases.append({"scenario": scn, "api": "reconnect", "loop": loop, "sockcfg": "none", "proto": proto})
     return [c for c in cases if c.get("scenario") in SCENARIOS]
 
 
@@ -1325,28 +1338,12 @@ def replay(payload):
 
 
 def finding_still_fails(f):
-    """f['sig'] = F-C18-<callback>-<api>-<lock>: replay every conversation that reaches that callback with all socket
-    callbacks installed and make the nested call; the finding stands while one of them blocks on that lock."""
-    m = re.match(r"F-C18-notwritten-(\w+)-(\w+)$", f["sig"])
-    if m:
-        cb, api = m.groups()
-        tried = []
-        with Patched():
-            for scn, spec in SCENARIOS.items():
-                if spec[0] != cb:
-                    continue
-                for sockcfg in ("none", "all"):
-                    if not applicable(scn, "rwm", sockcfg, 4):
-                        continue
-                    r = run_case(scn, api, "rwm", sockcfg, 4)
-                    tried.append((scn, sockcfg, r["outcome"], r.get("written")))
-                    if r["outcome"] == "ok" and r.get("written") is False:
-                        return True, {"scenario": scn, "sockcfg": sockcfg, "rc": r.get("rc"), "written": False}
-        return False, {"tried": tried}
+    """f['sig'] = F-C18-<callback>-loop_stop-loop_thread_join (F-C18e): replay the threaded conversations that reach that
+    callback on an application thread and call loop_stop() there; the finding stands while one of them never returns."""
     m = re.match(r"F-C18-(\w+)-(loop_stop)-(loop_thread_join)$", f["sig"])
     if not m:
         # lock self-deadlock signatures (F-C18a/b/c) are fixed: they are regression replays, not known findings
-        return False, "only F-C18d (notwritten) and F-C18e (loop_thread_join) signatures are known findings"
+        return False, "only the F-C18e (loop_thread_join) signatures are known findings; F-C18a/b/c/d are fixed and replayed as regressions"
     cb, api, lock = m.groups()
     tried = []
     with Patched():
